@@ -9,33 +9,117 @@ import (
 	"golang.org/x/tools/go/ssa"
 )
 
-// Write-frame obligations (C05/C06); filled in by the frame sweep.
+// Write-frame obligations (DESIGN §2.4.2, properties C05 and C06).
+//
+// Value heaps are the heaps JSON values live in: elements of []any, entries of map[string]any
+// and the big integers. In frame-sweep mode every write to a value heap needs an owned target
+// (access level, C06): an object allocated during this call, or one the allocator has recorded
+// (ghost GH_owned); and at every return the value heaps agree with the entry state on every
+// pre-existing, non-owned object (value level, C05).
 
-func (c *FnCtx) checkWrite(a *addr, v string, pos token.Pos)                                {}
-func (c *FnCtx) checkMapWrite(tt *types.Map, m, k, v string, pos token.Pos)                 {}
-func (c *FnCtx) checkMapDelete(tt *types.Map, m, k string, pos token.Pos)                   {}
-func (c *FnCtx) checkAppendWrite(st *types.Slice, s, inPlace, addLen string, pos token.Pos) {}
-func (c *FnCtx) checkCopyWrite(st *types.Slice, d, n string, pos token.Pos)                 {}
-func (c *FnCtx) jsonLoad(term string, t types.Type, a *addr)                                {}
-func (c *FnCtx) jsonLoadMap(term string, tt *types.Map)                                     {}
+var valueHeaps = map[string]bool{
+	"HE_any": true, "HMD_string_any": true, "HMV_string_any": true, "HML_string_any": true, "BIG": true,
+}
 
-// checkFrameAtReturn: the callee side of modifies. Every pre-existing object outside the
-// modifies clause has the state it had at entry.
-func (c *FnCtx) checkFrameAtReturn(x *ssa.Return) {
-	if c.con == nil || c.con.ModAll {
+func (c *FnCtx) frameMode() bool { return c.opts != nil && c.opts.frames }
+
+func (c *FnCtx) ownedHeap() string { return c.heapGet("GH_owned", "(Array Int Bool)") }
+
+// ownedTarget: the object ref may be written by this call: allocated by it, recorded by the
+// allocator, or named by the function's own modifies clause (then the callers answer for it).
+func (c *FnCtx) ownedTarget(heap, ref string) string {
+	alts := []string{lt(c.entry["ALLOC"], ref), sel(c.ownedHeap(), ref)}
+	if c.con != nil && !c.con.ModAll && len(c.con.ModItems) > 0 {
+		if c.modRefs == nil {
+			env := c.conEnv()
+			env.pkg = c.pkgTypes()
+			env.heap = c.entry
+			env.resolve = c.resolverAtEntry()
+			c.modRefs = c.modFrame(c.con, env)
+		}
+		if refs, ok := c.modRefs[heap]; ok {
+			if refs == nil {
+				return "true"
+			}
+			for _, r := range refs {
+				alts = append(alts, eq(ref, r))
+			}
+		}
+	}
+	return or(alts...)
+}
+
+func (c *FnCtx) accessOblige(heap, ref string, pos token.Pos, what string) {
+	if !c.frameMode() || !valueHeaps[heap] {
 		return
 	}
-	env := c.conEnv()
-	env.pkg = c.pkgTypes()
-	env.heap = c.entry
-	env.resolve = c.resolverAtEntry()
-	fr := c.modFrame(c.con, env)
+	c.oblige("write-frame", []string{"C06", "C05"}, c.guard(), c.ownedTarget(heap, ref), pos, nil, what+": the written object is allocated by this call or owned by the allocator")
+}
+
+func (c *FnCtx) checkWrite(a *addr, v string, pos token.Pos) {
+	r := a.root()
+	switch r.kind {
+	case aElem:
+		c.accessOblige(r.heap, r.base, pos, "store to an element of "+r.heap)
+	}
+}
+
+func (c *FnCtx) checkMapWrite(tt *types.Map, m, k, v string, pos token.Pos) {
+	c.accessOblige(heapMapVal(tt), m, pos, "map assignment")
+}
+
+func (c *FnCtx) checkMapDelete(tt *types.Map, m, k string, pos token.Pos) {
+	c.accessOblige(heapMapDom(tt), m, pos, "map delete")
+}
+
+func (c *FnCtx) checkAppendWrite(st *types.Slice, s, inPlace, addLen string, pos token.Pos) {
+	hn := heapElem(st.Elem())
+	if !c.frameMode() || !valueHeaps[hn] {
+		return
+	}
+	// an append that writes in place (spare capacity) writes the array of its first argument
+	c.oblige("write-frame", []string{"C06", "C05"}, and(c.guard(), inPlace, lt("0", addLen)), c.ownedTarget(hn, app("s-arr", s)), pos, nil, "append in place: the written array is allocated by this call or owned by the allocator")
+}
+
+func (c *FnCtx) checkCopyWrite(st *types.Slice, d, n string, pos token.Pos) {
+	hn := heapElem(st.Elem())
+	if !c.frameMode() || !valueHeaps[hn] {
+		return
+	}
+	c.oblige("write-frame", []string{"C06", "C05"}, and(c.guard(), lt("0", n)), c.ownedTarget(hn, app("s-arr", d)), pos, nil, "copy destination: the written array is allocated by this call or owned by the allocator")
+}
+
+func (c *FnCtx) jsonLoad(term string, t types.Type, a *addr) {}
+func (c *FnCtx) jsonLoadMap(term string, tt *types.Map)       {}
+
+// checkFrameAtReturn: the callee side of modifies. Every pre-existing object outside the
+// modifies clause has the state it had at entry. In frame-sweep mode functions without a
+// modifies clause get the implicit frame "no pre-existing, non-owned value is changed".
+func (c *FnCtx) checkFrameAtReturn(x *ssa.Return) {
+	sweepOnly := false
+	if c.con == nil || c.con.ModAll {
+		if !c.frameMode() {
+			return
+		}
+		sweepOnly = true
+	}
+	var fr map[string][]string
+	if !sweepOnly {
+		env := c.conEnv()
+		env.pkg = c.pkgTypes()
+		env.heap = c.entry
+		env.resolve = c.resolverAtEntry()
+		fr = c.modFrame(c.con, env)
+	}
 	var hs []string
 	for _, h := range c.heapOrder {
-		if c.isLocalHeap(h) || h == "ALLOC" || h == "OPAQUE" {
+		if c.isLocalHeap(h) || h == "ALLOC" || h == "OPAQUE" || h == "GH_owned" {
 			continue
 		}
 		if !strings.HasPrefix(c.heapSort[h], "(Array Int") {
+			continue
+		}
+		if sweepOnly && !valueHeaps[h] {
 			continue
 		}
 		cur, ok := c.cur[h]
@@ -57,14 +141,76 @@ func (c *FnCtx) checkFrameAtReturn(x *ssa.Return) {
 		for _, ref := range refs {
 			ne = append(ne, not(eq(r, ref)))
 		}
+		if c.frameMode() && valueHeaps[h] {
+			// objects recorded by the allocator may be updated in place
+			c.heapDecl("GH_owned", "(Array Int Bool)")
+			ne = append(ne, not(sel(c.entry["GH_owned"], r)))
+		}
 		guard := and(append([]string{c.guard(), le("0", r), le(r, c.entry["ALLOC"])}, ne...)...)
-		c.oblige("frame:"+h, props, guard, eq(sel(c.cur[h], r), sel(c.entry[h], r)), x.Pos(), nil, "modifies: pre-existing objects outside the modifies clause are unchanged in "+h)
+		c.oblige("frame:"+h, props, guard, eq(sel(c.cur[h], r), sel(c.entry[h], r)), x.Pos(), nil, "pre-existing objects outside the modifies clause are unchanged in "+h)
 	}
 }
 
 func (c *FnCtx) frameProps() []string {
+	if c.frameMode() {
+		return []string{"C05", "C06"}
+	}
 	if c.opts != nil && c.opts.props != nil {
 		return c.opts.props
 	}
 	return []string{"C05"}
+}
+
+// assumeCalleeFrame: in frame-sweep mode an uncontracted callee of the swept files is assumed
+// to respect the implicit frame it is itself verified against (modular, by induction on calls).
+func (c *FnCtx) assumeCalleeFrame(callee *ssa.Function, before heapState, allocBefore string) {
+	if !c.frameMode() || callee == nil || !c.eng.inFrameScope(callee) {
+		return
+	}
+	c.heapDecl("GH_owned", "(Array Int Bool)")
+	ownedBefore, ok := before["GH_owned"]
+	if !ok {
+		ownedBefore = c.entry["GH_owned"]
+	}
+	var hs []string
+	for h := range valueHeaps {
+		hs = append(hs, h)
+	}
+	sort.Strings(hs)
+	for _, h := range hs {
+		if _, ok := c.heapSort[h]; !ok {
+			continue
+		}
+		b, ok := before[h]
+		if !ok {
+			b = c.entry[h]
+		}
+		cur := c.cur[h]
+		if cur == "" || cur == b {
+			continue
+		}
+		r := c.fresh("r")
+		c.assume(forall([][2]string{{r, "Int"}}, implies(and(le("0", r), le(r, allocBefore), not(sel(ownedBefore, r))), eq(sel(cur, r), sel(b, r))), sel(cur, r)))
+	}
+	// ownership only grows, and only by objects allocated during the call
+	if cur := c.cur["GH_owned"]; cur != "" && cur != ownedBefore {
+		r := c.fresh("r")
+		c.assume(forall([][2]string{{r, "Int"}}, implies(and(le("0", r), le(r, allocBefore)), eq(sel(cur, r), sel(ownedBefore, r))), sel(cur, r)))
+	}
+}
+
+var frameScopeFiles = map[string]bool{"func.go": true, "operator.go": true, "compare.go": true, "encoder.go": true, "type.go": true, "iter.go": true, "normalize.go": true}
+
+func (e *Engine) inFrameScope(fn *ssa.Function) bool {
+	if !e.ownPkgFn(fn) {
+		return false
+	}
+	return frameScopeFiles[e.relFile(fn)]
+}
+
+// mutatingExternals: externals that write through an argument; index of the written argument.
+var mutatingExternals = map[string]int{
+	"sort.Slice": 0, "sort.SliceStable": 0, "sort.Strings": 0, "sort.Sort": 0, "sort.Stable": 0,
+	"slices.Sort": 0, "slices.SortFunc": 0, "slices.SortStableFunc": 0, "slices.Reverse": 0,
+	"maps.Copy": 0,
 }
